@@ -198,6 +198,8 @@ pub fn try_get_or_claim(key: u128, dut_reuse: bool) -> Outcome {
             Some(Slot::Done(entry)) => {
                 let entry = Arc::clone(entry);
                 drop(cache);
+                #[cfg(veryl_verif)]
+                crate::backend::inst::verif_cache_trace(format_args!("comb-pipeline-hit"));
                 return Outcome::Hit(entry);
             }
             Some(Slot::Computing) => {
